@@ -1,8 +1,59 @@
 package schist
 
+import (
+	"strconv"
+	"strings"
+)
+
 // setupHistory runs the per-history set-up transactions (provider registrations etc.) through the same Submit path,
 // so every monitor also judges them.
 func setupHistory(h *Hist, mons []Monitor) {
 	minerSetup(h, mons)
+	forkSetup(h, mons)
 	storageSetup(h, mons)
+}
+
+// forkSetup: much contract code is gated by the recorded hard forks ("demeter", "electra"). Without this step a history
+// only reaches the post-fork branches when a random add_hardfork happens to record them early; here three histories out
+// of five record both forks (and one only the older one) through the owner's add_hardfork before the workload starts, so
+// that pre-fork and post-fork behaviour are both driven in every run.
+func forkSetup(h *Hist, mons []Monitor) {
+	r := h.R.Fork("fork-setup")
+	var names []string
+	switch r.Intn(5) {
+	case 0:
+		return
+	case 1:
+		names = []string{"demeter"}
+	default:
+		names = []string{"demeter", "electra"}
+	}
+	m := h.S.Mn
+	round := h.mnRound()
+	fields := map[string]string{}
+	var forks []map[string]interface{}
+	for _, nm := range names {
+		rd := round + int64(r.Intn(2)) // this block or the next one
+		fields[nm] = strconv.FormatInt(rd, 10)
+		forks = append(forks, map[string]interface{}{"name": nm, "round": rd})
+	}
+	meta := map[string]interface{}{"forks": forks, "round": round, "owner_call": true, "known_forks": mnCopyForks(m.Forks), "setup": "forks"}
+	if len(forks) > 0 {
+		meta["fork"] = forks[0]
+	}
+	c := mnCall("miner.add_hardfork", "setup", h.mnOwner(), "add_hardfork", 0, 0, map[string]interface{}{"fields": fields}, meta, func(h *Hist, o *TxnObs) {
+		if o.Outcome != "success" {
+			return
+		}
+		for nm, v := range fields {
+			if rd, err := strconv.ParseInt(v, 10, 64); err == nil {
+				m.Forks[nm] = rd
+				m.ForkLog = append(m.ForkLog, mnFork{Name: nm, Round: rd, At: o.PreRound})
+			}
+		}
+	})
+	if o := h.Submit(c, mons); o.Outcome == "success" {
+		h.C(h.Focus, "histories_with_forks_recorded_at_setup:"+strings.Join(names, "+"))
+	}
+	h.EndBlock()
 }
